@@ -556,7 +556,8 @@ DECODER_REJECTIONS = {
         (2, "a later code unit of an instruction has its own line-table entry: reachable, decided (and listed as a known finding) by C01's R01.A; a jump target that is not the first code unit "
             "of an instruction: CPython's assembler resolves jumps to the first unit of the target instruction (compiler contract), C13's R13.6 decides the test itself"),
     ("code_data._code_data::to_code_data", "NotImplementedError"):
-        (1, "co_nlocals != len(co_varnames): the compiler sets co_nlocals from the length of the varnames tuple"),
+        (2, "co_nlocals != len(co_varnames): the compiler sets co_nlocals from the length of the varnames tuple; two free variables of the same name: the compiler's symbol table "
+            "lists every free name once"),
     ("code_data._code_data::to_code_data", "AssertionError"):
         (3, "NOFREE disagrees with empty free/cell tables (the compiler computes the flag from them); arguments on non-function code and two function kinds at once: decided by C04's R04.6 / R04.7"),
     ("code_data._code_data::to_code_data", "ValueError"):
